@@ -164,21 +164,15 @@ let run_case op kv : string * string =
     let r = pair_with_indices x (nat_of_int (num kv "i1")) (nat_of_int (num kv "i2")) in
     (fmt_opt_pair r, "-")
   | ("find" | "rfind" | "count") when get kv "raw" = "1" ->
-    (* raw-pointer forms: the searched range is h[so..eo); start >= end gives None / 0 without any load
-       (that guard is the first line of every *_raw routine; it is modelled here, in the driver) *)
+    (* raw-pointer forms: Mem/Wrappers.v backend_*_raw (start >= end gives None / 0 without any load) *)
     let ns = bytes kv "ns" and h = bytes kv "h" in
-    let so = num kv "so" and eo = num kv "eo" in
+    let so = nat_of_int (num kv "so") and eo = nat_of_int (num kv "eo") in
+    let a = nat_of_int (num kv "a") in
     let be = backend_of (get kv "be") (get kv "cpu") in
-    if so >= eo then ((if op = "count" then "0" else "None"), "-")
-    else begin
-      let sub = List.filteri (fun i _ -> i >= so && i < eo) h in
-      let a = nat_of_int (num kv "a" + so) in
-      let shift = function None -> "None" | Some i -> Printf.sprintf "Some(%d)" (int_of_nat i + so) in
-      (match op with
-       | "find" -> let (r, t) = backend_find ns a sub be in (fmt_res shift r, fmt_trace t)
-       | "rfind" -> let (r, t) = backend_rfind ns a sub be in (fmt_res shift r, fmt_trace t)
-       | _ -> let (r, t) = backend_count ns a sub be in (fmt_res (fun n -> string_of_int (int_of_nat n)) r, fmt_trace t))
-    end
+    (match op with
+     | "find" -> let (r, t) = backend_find_raw ns a h so eo be in (fmt_res fmt_opt_nat r, fmt_trace t)
+     | "rfind" -> let (r, t) = backend_rfind_raw ns a h so eo be in (fmt_res fmt_opt_nat r, fmt_trace t)
+     | _ -> let (r, t) = backend_count_raw ns a h so eo be in (fmt_res (fun n -> string_of_int (int_of_nat n)) r, fmt_trace t))
   | "avail" ->
     (* availability of the x86 backends as a function of the detection outcome *)
     let ok = (match get kv "isa", get kv "cpu" with
